@@ -7,7 +7,8 @@ from hypothesis import strategies as st
 from vlib.core import HypClause
 from vlib import util as U
 
-RULE = ("[Round-8 hardening, clause trace_batch - rays of one batch are independent of each other: one strongly curved sphere / conic / off-axis conic (radius of curvature 10 .. 0.1; "
+RULE = ("[Round-9 hardening.  Clause direct_calls - what a direct call returns belongs to the caller: two surfaces A, B (plane / sphere / conic / off-axis conic), two bundles of the same number of rays (1 .. 64) and dtype (float64, float32 on gentle surfaces; C / Fortran / strided) inside the quantifier; intersect or newton_raphson_solve_s (any of the four pairings) is called on A, then - optionally after a raytrace() of as many rays or a solve of another size - on B (or on A again with other rays / the same rays); the arrays returned first are compared with copies, may not share memory with the later ones, and are checked again against A (on the ray, on the sag, vector along the analytic normal); after the caller overwrites them a repeated first call returns the same values; reflect / refract / transform_to_local_coords / transform_to_global_coords / Surface.sag_normal are called twice in the same way (other directions, origin, rotation, points, surface) and the first result is compared with its copy and with the law / R (X - P) / closed-form sag and gradient.  Clauses trace_*: the caller keeps using the objects it handed to the constructors - every P (float64 array of shape (3,), or the drawn list / ints / [y, z]) and every list of rotation angles is modified in place once its surface exists; the lens-table loop (one position array object handed to every constructor and advanced in place in between); a sibling Surface built from the same position array and despaced / re-prescribed in place through its own P and params - surf.P / surf.R must stay what the constructor was given, and the trace is checked against the surfaces as specified at construction time.]  "
+        "[Round-8 hardening, clause trace_batch - rays of one batch are independent of each other: one strongly curved sphere / conic / off-axis conic (radius of curvature 10 .. 0.1; "
         "paraboloids and their neighbours k = -1, -0.99, -1.01 most often, also k = -3 .. 1), reflecting, refracting or 'eval', placed and tilted; 99 .. 2500 easy rays (collimated grid, "
         "random rays tilted <= 8 deg, or one ray repeated; rarely 32771 / 65539 rays) and 1..5 steep / skew rays (40 .. 80 deg off the axis, travelling either way, hit points out to 6 / |c|) "
         "chosen from a seed-expanded pool of 2000 as the ones that need the most iterations of a harness model of the documented Newton search (8 .. 15; 12 or more in about a third of "
@@ -87,6 +88,9 @@ ASSUMPTIONS = [
     "which Python objects the surfaces of a prescription share (one R matrix for several surfaces, one n callable, one Surface listed twice) is no "
     "part of the prescription: raytrace documents a sequence of surfaces described by typ / P / R / n, so the trace with shared objects is the same "
     "computation as with equal copies (compared exactly) - a double pass through a refracting Surface uses that surface's n as n' again, as raytrace documents",
+    "objects handed to a Surface constructor: the unchanged tree copies P (any form) and converts a list / tuple of angles into a new matrix, so the caller may go on modifying those objects; a rotation MATRIX "
+    "and the values of params are stored as they are (the surface follows later edits of the caller's matrix) - nothing is asserted about editing those.  transform_to_*_coords with R=None return the S they were given: "
+    "results are only required not to change through later calls with other arrays, not to be fresh arrays",
     "float32 rays: the trace runs in float64 against float64 surfaces and the histories are stored in float32; every tolerance is "
     "2e-5 (positions relative to the scale of the system), origins 'at infinity' are not given in float32",
 ]
@@ -391,11 +395,17 @@ def shared_matrix(ctx, shared, R):
     return shared['R'][key]
 
 
-def build(ctx, spec, mdl, shared=None):
+def build(ctx, spec, mdl, shared=None, pos=None, edit_after=False):
+    """pos: None, or the caller's own float64 position array (shape (3,), holding the position of this surface at the moment of the
+    call) that is handed to the constructor as P - the caller goes on using that array object afterwards.
+    edit_after: the P (list / array) and R (list of angles) objects handed to the constructor are modified in place once the
+    surface exists; the surface is the one specified at construction time"""
     from prysm.x.raytracing.surfaces import Surface
     ct = spec.get('ctor') or {}
     reassign = bool(ct.get('reassign', False))
     typ, P, n, R, omit_n = ctor_args(ctx, spec, away=reassign, shared=shared)
+    if pos is not None:
+        P = pos
     given = (_copy_arg(P), _copy_arg(R))
     kw = {} if omit_n else {'n': n}
     kind = mdl.kind
@@ -452,7 +462,93 @@ def build(ctx, spec, mdl, shared=None):
         s.P = np.array(P2, dtype=np.float64)
         s.R = None if R2 is None else R2 if isinstance(R2, np.ndarray) else np.asarray(ctx.call(make_rotation_matrix, R2))
         s.n = n2
+    if edit_after:
+        # the caller goes on using its own objects: the position array / list is moved on, the list of angles is overwritten
+        # (the surface is not looked at before the caller's objects are changed: what it must be is known from the spec)
+        from prysm.coordinates import make_rotation_matrix
+        P_was = np.asarray(spec['P'], dtype=np.float64)
+        R_ref = np.asarray(ctx.call(make_rotation_matrix, tuple(R)), dtype=np.float64) if isinstance(R, list) else None
+        if isinstance(P, np.ndarray) and P.dtype.kind == 'f':
+            P += np.array([1.5, -0.75, 3.0], dtype=P.dtype)
+        elif isinstance(P, np.ndarray):
+            P += 2
+        elif isinstance(P, list):
+            P[-1] = P[-1] + 3.0
+            P[0] = P[0] - 1.5
+        if isinstance(R, list):
+            R[:] = [a + 7.0 for a in R]
+        ctx.require(np.array_equal(np.asarray(s.P, dtype=np.float64), P_was), 'surface:P:follows-the-callers-array',
+                    'Surface built with P=%s (%s): after the caller changed its own %s in place, surf.P is %s' % (
+                        _fmt(P_was), _describe_P(P), type(P).__name__, _fmt(s.P)))
+        if R_ref is not None:
+            Rs = np.asarray(s.R, dtype=np.float64)
+            ctx.require(Rs.shape == (3, 3) and np.array_equal(Rs, R_ref), 'surface:R:follows-the-callers-list',
+                        'Surface built with R = the list of angles %r: after the caller overwrote the entries of that list (now %r), surf.R is not make_rotation_matrix of the angles it was given' % (spec.get('R'), R))
     return s
+
+
+def _describe_P(P):
+    return '%s array of shape %r' % (P.dtype, P.shape) if isinstance(P, np.ndarray) else type(P).__name__
+
+
+POS_MODES = [None, None, None, None, 'edit-after', 'edit-after-array', 'one-array', 'one-array', 'sibling']
+
+
+def pos_spec(spec, mode):
+    """the surface spec for the position modes: the object is placed by its constructor (not re-pointed afterwards); the position is
+    handed over as a float64 array of shape (3,) in every mode but 'edit-after' (which keeps the drawn form: list, ints, [y, z], array)"""
+    spec = dict(spec)
+    ct = dict(spec.get('ctor') or {})
+    ct['reassign'] = False
+    if mode != 'edit-after':
+        ct['P'] = 'ndarray'
+    spec['ctor'] = ct
+    return spec
+
+
+def build_all(ctx, specs, mdls, shared, mode):
+    """the surfaces of a prescription, built the way a caller who keeps using its own argument objects builds them:
+    'edit-after' / 'edit-after-array': every P (and list of angles) is modified in place as soon as its surface exists;
+    'one-array': the lens-table loop - one position array object for all surfaces, advanced in place after each constructor call;
+    'sibling': a second Surface is built from the same position array object (and equal other arguments) next to every surface
+    and is afterwards despaced / re-prescribed in place through its own public P and params."""
+    if not mode:
+        return [build(ctx, s, m, shared) for s, m in zip(specs, mdls)]
+    ctx.label('callers-position-object:' + mode)
+    if mode in ('edit-after', 'edit-after-array'):
+        surfs = [build(ctx, s, m, shared, edit_after=True) for s, m in zip(specs, mdls)]
+    elif mode == 'one-array':
+        pos = np.array(specs[0]['P'], dtype=np.float64)
+        surfs = []
+        for j, (s, m) in enumerate(zip(specs, mdls)):
+            surfs.append(build(ctx, s, m, shared, pos=pos))
+            if j + 1 < len(specs):
+                pos[:] = np.asarray(specs[j + 1]['P'], dtype=np.float64)       # in place: the same array object goes to the next constructor
+            else:
+                pos += np.array([0.25, -0.5, 10.0])
+    else:
+        surfs, sibs = [], []
+        for j, (s, m) in enumerate(zip(specs, mdls)):
+            pos = np.array(s['P'], dtype=np.float64)
+            first = j % 2 == 0
+            if first:
+                sibs.append(build(ctx, s, Model(s), shared, pos=pos))
+            surfs.append(build(ctx, s, m, shared, pos=pos))
+            if not first:
+                sibs.append(build(ctx, s, Model(s), shared, pos=pos))
+        for sb in sibs:
+            if isinstance(sb.P, np.ndarray):
+                sb.P += np.array([2.0, 1.0, -4.0], dtype=sb.P.dtype)
+            if isinstance(sb.params, dict):
+                for key in list(sb.params):
+                    sb.params[key] = sb.params[key] * 2 + 0.001
+    for j, (sf, sp) in enumerate(zip(surfs, specs)):
+        Pj = np.asarray(sf.P, dtype=np.float64)
+        ctx.require(Pj.shape == (3,) and np.array_equal(Pj, np.asarray(sp['P'], dtype=np.float64)), 'surface:P:follows-the-callers-array',
+                    'surface %d was built with P=%s handed over as a float64 array of shape (3,) (%s); after %s surf.P is %s' % (
+                        j, _fmt(sp['P']), mode, 'the caller moved that array on in place' if mode != 'sibling' else 'another Surface built from the same array was despaced in place through its own P',
+                        _fmt(Pj)))
+    return surfs
 
 
 def _copy_arg(a):
@@ -647,8 +743,11 @@ def check_trace(case, ctx):
             P0_ = np.asarray(specs[0]['P'], dtype=np.float64)
             for sp in specs[1:]:
                 sp['P'] = (P0_ + Rm.T @ (np.asarray(sp['P'], dtype=np.float64) - P0_)).tolist()
+    posmode = case.get('pos')
+    if posmode:
+        specs = [pos_spec(sp, posmode) for sp in specs]
     mdls = [Model(s) for s in specs]
-    surfs = [build(ctx, s, m, shared) for s, m in zip(specs, mdls)]
+    surfs = build_all(ctx, specs, mdls, shared, posmode)
     if share and share.get('same_object'):
         # the same Surface object stands twice in the prescription (double pass: out through it, back from a mirror)
         surfs[2] = surfs[0]
@@ -1035,7 +1134,7 @@ def strat_single(tier):
         'nrand': st.one_of(st.just(0), st.integers(0, nmax)), 'seed': U.seeds,
         'dirz': st.sampled_from([1, 1, -1]), 'd': st.one_of(_i(10, 500, 10), _i(10, 500, 10), _i(10, 500, 10), st.sampled_from([1e7, 1e10, 1e99])),
         'warmup': st.booleans(), 'retrace': st.sampled_from([False, False, True]), 'pform': st.sampled_from(RAY_FORMS),
-        'form': st.sampled_from(['batch', 'batch', 'batch', 'single1d']),
+        'form': st.sampled_from(['batch', 'batch', 'batch', 'single1d']), 'pos': st.sampled_from(POS_MODES),
     }).filter(lambda c: len(c['rays']) + c['nrand'] >= 1)
 
 
@@ -1068,7 +1167,7 @@ def strat_argtypes(tier):
         'rays': st.just([]), 'nrand': st.just(0), 'seed': st.just(0),
         'dirz': st.sampled_from([1, 1, -1]), 'd': st.integers(1, 40),
         'warmup': st.booleans(), 'retrace': st.sampled_from([False, False, True]), 'pform': st.sampled_from(INT_RAY_FORMS),
-        'form': st.sampled_from(['batch', 'batch', 'single1d']),
+        'form': st.sampled_from(['batch', 'batch', 'single1d']), 'pos': st.sampled_from(POS_MODES),
         'share': st.one_of(st.none(), st.none(), share_s(12, rigid=False, same_object=False))})
     return st.integers(1, 2).flatmap(lambda n: st.tuples(
         st.lists(surface_s(kinds, 12, _i(-200, 200, 10), types=('refl', 'refr', 'refr')), min_size=n, max_size=n), _i(50, 300, 10), base)).map(assemble)
@@ -1109,7 +1208,7 @@ def strat_prescription(tier):
         'nrand': st.integers(0, 24), 'seed': U.seeds, 'dirz': st.sampled_from([1, 1, -1]),
         'd': st.one_of(_i(10, 300, 10), _i(10, 300, 10), _i(10, 300, 10), st.sampled_from([1e7, 1e10])), 'warmup': st.booleans(),
         'retrace': st.sampled_from([False, False, False, True]), 'pform': st.sampled_from(RAY_FORMS),
-        'form': st.sampled_from(['batch', 'batch', 'batch', 'single1d']),
+        'form': st.sampled_from(['batch', 'batch', 'batch', 'single1d']), 'pos': st.sampled_from(POS_MODES),
         'share': st.one_of(st.none(), share_s(5), share_s(5))})
     return st.integers(2, 3).flatmap(lambda n: st.tuples(
         st.lists(surface_s(kinds, 5, _i(-200, 200, 10), types=('refl', 'refr', 'refl', 'refr', 'eval')), min_size=n, max_size=n),
@@ -1392,6 +1491,222 @@ def strat_batch(tier):
         'pform': st.sampled_from(['f64', 'f64', 'f64', 'F', 'strided', 'list']), 'after_error': st.sampled_from([False, False, False, True])})
 
 
+# ---- the entry points called directly: results belong to the caller --------------------------------------------------------------
+def strat_direct(tier):
+    kinds = ['plane', 'sphere', 'conic', 'conic', 'offaxis']
+    surf = surface_s(kinds, 20, _i(-500, 500, 10))
+    ang = _i(-1800, 1800, 10)
+    return st.fixed_dictionaries({
+        'A': surf, 'B': surf, 'n': st.one_of(st.integers(1, 40), st.sampled_from([1, 1, 2, 7, 64])), 'seed': U.seeds,
+        'dirz': st.sampled_from([1, 1, -1]), 'd': _i(10, 300, 10), 'n_ambient': st.one_of(st.just(1.0), _i(1000, 1900, 1000)),
+        # what the second call is given: another surface and other rays, the same surface with other rays, the same surface and the same rays
+        'second': st.sampled_from(['other-surface', 'other-surface', 'other-rays', 'same-arguments']),
+        # which of the two public functions of step II makes the first / the second call
+        'entry': st.tuples(st.sampled_from(['intersect', 'intersect', 'newton']), st.sampled_from(['intersect', 'intersect', 'newton'])).map(list),
+        'dtype': st.sampled_from(['f64', 'f64', 'f64', 'f32']), 'layout': st.sampled_from(['C', 'C', 'F', 'strided']),
+        'between': st.sampled_from([None, None, 'raytrace', 'other-size']),
+        'P2': st.tuples(_i(-100, 100, 10), _i(-100, 100, 10), _i(-100, 100, 10)).map(list), 'R2': st.one_of(st.none(), st.tuples(ang, ang, ang).map(list)),
+    })
+
+
+def _direct_rays(case, mdl, typ, n_in, n_out, salt, want):
+    """up to `want` rays in the local frame of the surface that are inside the quantifier there (harness reference step)"""
+    sub = {'dirz': case['dirz'], 'd': case['d'], 'rays': [], 'nrand': 3 * want + 12, 'seed': int(case['seed']) * 4 + salt}
+    P0, S, _ = make_rays(sub, mdl)
+    _, _, ok = ref_step(mdl, typ, n_in, n_out, P0, S)
+    return P0[ok][:want], S[ok][:want]
+
+
+def _check_hit(ctx, mdl, P0, S, Pj, rj, tol, what):
+    """Pj on the ray (P0, S) and on the sag of mdl, rj along the analytic normal there"""
+    Pj, rj = np.asarray(Pj, dtype=np.float64), np.asarray(rj, dtype=np.float64)
+    n = len(P0)
+    U.check_shape(Pj, (n, 3), 'intersect')
+    U.check_shape(rj, (n, 3), 'intersect')
+    if not (np.isfinite(Pj).all() and np.isfinite(rj).all()):
+        i = int(np.argmin(np.isfinite(Pj).all(axis=1) & np.isfinite(rj).all(axis=1)))
+        ctx.fail('nan:ray:direct-call', '%s: ray P=%s S=%s (local) gives P\'=%s r=%s' % (what, _fmt(P0[i]), _fmt(S[i]), _fmt(Pj[i]), _fmt(rj[i])))
+    L = max(1.0, float(np.abs(P0).max()))
+    off = np.linalg.norm(np.cross(Pj - P0, S), axis=1)
+    i = int(np.argmax(off))
+    ctx.require(off[i] <= tol.pos * L * 10, 'intersect:off-ray:direct-call', '%s: the point %s is %.3g away from the ray P=%s S=%s' % (what, _fmt(Pj[i]), off[i], _fmt(P0[i]), _fmt(S[i])))
+    with np.errstate(all='ignore'):
+        e = np.abs(Pj[:, 2] - mdl.sag(Pj[:, 0], Pj[:, 1]))
+    e = np.where(np.isfinite(e), e, np.inf)
+    i = int(np.argmax(e))
+    Ls = max(1.0, float(np.abs(Pj).max())) if not tol.f32 else L
+    ctx.require(e[i] <= tol.pos * Ls, 'intersect:off-surface:direct-call', '%s: the point %s has z - sag = %.3g (tol %.3g) on the surface %s c=%g k=%g off=(%g,%g)' % (
+        what, _fmt(Pj[i]), e[i], tol.pos * Ls, mdl.kind, mdl.c, mdl.k, mdl.sx, mdl.sy))
+    with np.errstate(all='ignore'):
+        nrm = mdl.normal(Pj[:, 0], Pj[:, 1])
+        rn = rj / np.linalg.norm(rj, axis=1, keepdims=True)
+        dn = np.minimum(np.abs(rn - nrm).max(axis=1), np.abs(rn + nrm).max(axis=1))
+    dn = np.where(np.isfinite(dn), dn, np.inf)
+    i = int(np.argmax(dn))
+    ctx.require(dn[i] <= tol.law, 'intersect:normal:direct-call', '%s: the vector returned as surface normal at %s is %s, the analytic normal is +-%s' % (what, _fmt(Pj[i]), _fmt(rj[i]), _fmt(nrm[i])))
+    return nrm
+
+
+def _unchanged(ctx, kept, bucket, what):
+    """kept: list of (name, array, copy taken when it was returned)"""
+    for name, a, c in kept:
+        same = a.shape == c.shape and a.dtype == c.dtype and np.array_equal(a, c, equal_nan=True)
+        if not same:
+            nbad = int(np.sum(~((a == c) | ((a != a) & (c != c))))) if a.shape == c.shape else -1
+            ctx.fail(bucket, '%s: %s, still held by the caller, changed in %d of %d elements (first row was %s, is now %s)' % (
+                what, name, nbad, a.size, _fmt(np.atleast_2d(c)[0]), _fmt(np.atleast_2d(a)[0])))
+
+
+def check_direct(case, ctx):
+    """intersect / newton_raphson_solve_s / reflect / refract / transform_to_local_coords / transform_to_global_coords / Surface.sag_normal
+    called directly, twice, with batches of one size and dtype: what the first call returned is the caller's - it is unchanged after the
+    second call (other surface, other rays) and still lies on its own surface; overwriting it does not change what a later call returns."""
+    from prysm.x.raytracing import spencer_and_murty as sm
+    n_amb = float(case['n_ambient'])
+    specA, specB = dict(case['A']), dict(case['B'])
+    for sp in (specA, specB):
+        sp['ctor'] = dict(sp.get('ctor') or {}, reassign=False, edit_params=None)
+    if case['second'] != 'other-surface':
+        specB = dict(specA)
+    mA, mB = Model(specA), Model(specB)
+    f32 = case.get('dtype', 'f64') == 'f32' and max(abs(mA.c), abs(mB.c)) <= 0.05
+    sA = build(ctx, specA, mA, None)
+    sB = sA if case['second'] != 'other-surface' else build(ctx, specB, mB, None)
+    noutA = float(specA['n']) if specA['typ'] == 'refr' else n_amb
+    noutB = float(specB['n']) if specB['typ'] == 'refr' else n_amb
+    want = int(case['n'])
+    P0A, SA = _direct_rays(case, mA, specA['typ'], n_amb, noutA, 1, want)
+    P0B, SB = (P0A.copy(), SA.copy()) if case['second'] == 'same-arguments' else _direct_rays(case, mB, specB['typ'], n_amb, noutB, 2, want)
+    n = min(len(P0A), len(P0B))
+    if n == 0:
+        ctx.exclude('no ray of the bundle hits both surfaces inside the stated domain')
+    P0A, SA, P0B, SB = P0A[:n], SA[:n], P0B[:n], SB[:n]
+    dt = np.float32 if f32 else np.float64
+    lay = case.get('layout', 'C')
+
+    def arr(A):
+        return U.relayout(A.astype(dt), lay)
+    if f32:
+        P0A, SA, P0B, SB = (A.astype(np.float32).astype(np.float64) for A in (P0A, SA, P0B, SB))
+    tol = Tol(f32)
+    e1, e2 = case['entry']
+    ctx.label('second-call:' + case['second'], 'first-entry:' + e1, 'second-entry:' + e2, 'dtype:' + ('f32' if f32 else 'f64'), 'layout:' + lay,
+              'batch:%s' % ('1' if n == 1 else '2-9' if n < 10 else '>=10'), 'kinds:%s/%s' % (mA.kind, mB.kind), 'between:%s' % case.get('between'))
+    ctx.nt(mA.curved or mB.curved)
+
+    def solve(entry, surf, P0, S):
+        """one direct call of step II; arguments must come back unchanged"""
+        if entry == 'newton':
+            # the documented input of newton_raphson_solve_s: the point where the ray crosses the local z = 0 plane
+            P1 = P0 + (-P0[:, 2] / S[:, 2])[:, None] * S
+            a = (arr(P1), arr(S))
+            k = _copy_arg(a)
+            out = ctx.call(sm.newton_raphson_solve_s, a[0], a[1], surf.sag_normal)
+        else:
+            a = (arr(P0), arr(S))
+            k = _copy_arg(a)
+            out = ctx.call(sm.intersect, a[0], a[1], surf.sag_normal)
+        ctx.require(_same_arg(k, a), 'intersect:argument-modified', '%s changed the P / S it was given' % entry)
+        ctx.require(isinstance(out, tuple) and len(out) == 2 and all(isinstance(o, np.ndarray) for o in out), 'intersect:return', '%s returned %r' % (entry, type(out)))
+        return out
+    # ---- step II
+    PA, rA = solve(e1, sA, P0A, SA)
+    kept = [('the intersection points of the first call', PA, PA.copy()), ('the surface normals of the first call', rA, rA.copy())]
+    _check_hit(ctx, mA, P0A, SA, PA, rA, tol, 'first call (%s)' % e1)
+    btw = case.get('between')
+    if btw == 'raytrace':
+        # raytrace() of the same number of rays through the other surface in between
+        Pg, Sg = frame_to_global(P0B, SB, np.asarray(sB.P, dtype=np.float64), None if sB.R is None else np.asarray(sB.R, dtype=np.float64))
+        ctx.call(sm.raytrace, [sB], Pg.astype(dt), Sg.astype(dt), 0.6328, n_amb)
+    elif btw == 'other-size' and n > 1:
+        solve(e2, sB, P0B[:n - 1], SB[:n - 1])
+    PB, rB = solve(e2, sB, P0B, SB)
+    what2 = 'a second call (%s, %s, %d rays, %s)' % (e2, case['second'], n, 'float32' if f32 else 'float64')
+    _unchanged(ctx, kept, 'intersect:result-overwritten', 'after ' + what2)
+    ctx.require(not (np.shares_memory(PA, PB) or np.shares_memory(rA, rB)), 'intersect:result-overwritten',
+                'the arrays returned by the first call (%s) and by %s share memory' % (e1, what2))
+    _check_hit(ctx, mB, P0B, SB, PB, rB, tol, 'second call (%s)' % e2)
+    _check_hit(ctx, mA, P0A, SA, PA, rA, tol, 'first call (%s), looked at after the second' % e1)
+    # the caller overwrites what it was given; a later call with the first arguments returns what the first call returned
+    first = (PA.copy(), rA.copy())
+    PA[...] = 7.0
+    rA[...] = -3.0
+    PB[...] = np.nan
+    P3, r3 = solve(e1, sA, P0A, SA)
+    ctx.require(np.array_equal(P3, first[0]) and np.array_equal(r3, first[1]), 'intersect:aliased-state',
+                '%s with the arguments of the first call returns other values after the caller overwrote the arrays returned before (max |difference| %.3g)' % (
+                    e1, float(np.nanmax(np.abs(P3.astype(np.float64) - first[0].astype(np.float64))))))
+    PA, rA, PB, rB = first[0], first[1], None, None
+    # ---- step III: reflect / refract on the (verified) normals
+    PB2, rB2 = solve(e2, sB, P0B, SB)
+    _check_hit(ctx, mB, P0B, SB, PB2, rB2, tol, 'second call (%s) repeated' % e2)
+    outs = []
+    for name, fn in (('reflect', lambda S_, r_: ctx.call(sm.reflect, S_, r_)), ('refract', lambda S_, r_: ctx.call(sm.refract, n_amb, n_amb * 1.25, S_, r_))):
+        o1 = np.asarray(fn(arr(SA), rA))
+        k1 = o1.copy()
+        o2 = np.asarray(fn(arr(SB), rB2))
+        _unchanged(ctx, [('the directions returned by the first call', o1, k1)], name + ':result-overwritten', 'after a second %s of %d rays' % (name, n))
+        outs.append((o1, o2))
+    for which, (mdl_, S_, Pj_) in enumerate(((mA, SA, first[0]), (mB, SB, PB2))):
+        nrm = mdl_.normal(Pj_[:, 0].astype(np.float64), Pj_[:, 1].astype(np.float64))
+        ci = dot(S_, nrm)
+        refl = np.asarray(outs[0][which], dtype=np.float64)
+        U.check_shape(refl, (n, 3), 'reflect')
+        err = np.abs(refl - (S_ - 2 * ci[:, None] * nrm)).max(axis=1)
+        i = int(np.argmax(np.where(np.isfinite(err), err, np.inf)))
+        ctx.require(err[i] <= tol.law, 'reflect:law:direct-call', 'reflect(S, r) with the normal returned by %s: S\'=%s is not the mirror image of S=%s about n=%s (err %.3g)' % (
+            e1, _fmt(refl[i]), _fmt(S_[i]), _fmt(nrm[i]), err[i]))
+        mu = 1 / 1.25
+        refr = np.asarray(outs[1][which], dtype=np.float64)
+        U.check_shape(refr, (n, 3), 'refract')
+        wantv = mu * S_ + (np.sign(ci) * np.sqrt(1 - mu * mu * (1 - ci * ci)) - mu * ci)[:, None] * nrm
+        err = np.abs(refr - wantv).max(axis=1)
+        i = int(np.argmax(np.where(np.isfinite(err), err, np.inf)))
+        ctx.require(err[i] <= tol.law, 'refract:snell:direct-call', 'refract(n, 1.25 n, S, r) with the normal returned by %s, looked at after a second call: S\'=%s, vector Snell law gives %s (err %.3g)' % (
+            e1, _fmt(refr[i]), _fmt(wantv[i]), err[i]))
+    # ---- steps I / IV: the frame transforms
+    from prysm.coordinates import make_rotation_matrix
+    Pa, Ra = np.asarray(sA.P, dtype=np.float64), (None if sA.R is None else np.asarray(sA.R, dtype=np.float64))
+    Pb = np.asarray(case['P2'], dtype=np.float64)
+    Rb = None if case['R2'] is None else np.asarray(ctx.call(make_rotation_matrix, tuple(case['R2'])), dtype=np.float64)
+    Lf = max(1.0, float(np.abs(P0A).max()), float(np.abs(P0B).max()), float(np.abs(Pa).max()), float(np.abs(Pb).max()))
+    for name, fn, ref in (('transform_to_local_coords', sm.transform_to_local_coords, frame_to_local),
+                          ('transform_to_global_coords', sm.transform_to_global_coords, lambda X_, S_, P_, R_: frame_to_global(X_, S_, P_, None if R_ is None else R_.T))):
+        X1, S1 = ctx.call(fn, arr(P0A), Pa.copy(), arr(SA), None if Ra is None else Ra.copy())
+        X1, S1 = np.asarray(X1), np.asarray(S1)
+        k = [('the coordinates returned by the first call', X1, X1.copy()), ('the directions returned by the first call', S1, S1.copy())]
+        X2, S2 = ctx.call(fn, arr(P0B), Pb.copy(), arr(SB), None if Rb is None else Rb.copy())
+        _unchanged(ctx, k, name.replace('transform_', '').replace('_coords', '') + ':result-overwritten', 'after a second %s of %d points with another origin / rotation' % (name, n))
+        for (Xo, So), (Xi, Si, P_, R_) in (((X1, S1), (P0A, SA, Pa, Ra)), ((np.asarray(X2), np.asarray(S2)), (P0B, SB, Pb, Rb))):
+            Xw, Sw = ref(Xi, Si, P_, R_)
+            U.check_shape(np.atleast_2d(Xo), (n, 3), name)
+            U.check_close(np.atleast_2d(Xo).astype(np.float64), Xw, 0, name.replace('transform_', '').replace('_coords', '') + ':formula', name + ' called directly, positions', atol=(1e-5 if f32 else 1e-12) * Lf)
+            U.check_close(np.atleast_2d(So).astype(np.float64), Sw, 0, name.replace('transform_', '').replace('_coords', '') + ':formula', name + ' called directly, directions', atol=1e-5 if f32 else 1e-13)
+    # ---- Surface.sag_normal
+    xa, ya = arr(first[0][:, 0].astype(np.float64)), arr(first[0][:, 1].astype(np.float64))
+    hB = P0B + (-P0B[:, 2] / SB[:, 2])[:, None] * SB
+    xb, yb = arr(hB[:, 0]), arr(hB[:, 1])
+    kx = (xa.copy(), ya.copy())
+    z1, d1 = ctx.call(sA.sag_normal, xa, ya)
+    z1, d1 = np.asarray(z1), np.asarray(d1)
+    k = [('the sag returned by the first call', z1, z1.copy()), ('the normal vectors returned by the first call', d1, d1.copy())]
+    ctx.call(sB.sag_normal, xb, yb)
+    ctx.call(sA.sag_normal, xb, yb)
+    _unchanged(ctx, k, 'sag_normal:result-overwritten', 'after sag_normal was evaluated at %d other points (the other surface, then this one)' % n)
+    ctx.require(np.array_equal(xa, kx[0]) and np.array_equal(ya, kx[1]), 'sag_normal:argument-modified', 'sag_normal changed the x / y it was given')
+    U.check_shape(z1, (n,), 'sag_normal')
+    U.check_shape(d1, (n, 3), 'sag_normal')
+    xe, ye = xa.astype(np.float64), ya.astype(np.float64)
+    Ls = max(1.0, float(np.abs(xe).max()), float(np.abs(ye).max()))
+    with np.errstate(all='ignore'):
+        zw = mA.sag(xe, ye)
+        gx, gy = mA.grad(xe, ye)
+    U.check_close(z1.astype(np.float64), zw, 0, 'sag_normal:sag', 'Surface.sag_normal: sag of the %s c=%g k=%g off=(%g,%g)' % (mA.kind, mA.c, mA.k, mA.sx, mA.sy), atol=tol.pos * Ls)
+    U.check_close(d1.astype(np.float64), np.stack([-gx, -gy, np.ones_like(gx)], axis=1), 0, 'sag_normal:normal', 'Surface.sag_normal: (-Fx, -Fy, 1) of the %s c=%g k=%g off=(%g,%g)' % (
+        mA.kind, mA.c, mA.k, mA.sx, mA.sy), atol=tol.law)
+
+
+
 # ---- reflect / refract called directly -----------------------------------------------------------------------------
 def strat_laws(tier):
     return st.fixed_dictionaries({
@@ -1602,6 +1917,7 @@ CLAUSES = [
     HypClause('trace_prescription', strat_prescription, check_trace, examples={'quick': 400, 'thorough': 1800}, shards={'quick': 3, 'thorough': 10}),
     HypClause('trace_argtypes', strat_argtypes, check_trace, examples={'quick': 350, 'thorough': 1800}, shards={'quick': 2, 'thorough': 8}),
     HypClause('trace_batch', strat_batch, check_batch, examples={'quick': 120, 'thorough': 600}, shards={'quick': 3, 'thorough': 8}),
+    HypClause('direct_calls', strat_direct, check_direct, examples={'quick': 300, 'thorough': 1500}, shards={'quick': 2, 'thorough': 6}),
     HypClause('laws_direct', strat_laws, check_laws, examples={'quick': 600, 'thorough': 4000}, shards={'quick': 1, 'thorough': 4}),
     HypClause('frames', strat_frames, check_frames, examples={'quick': 500, 'thorough': 4000}, shards={'quick': 1, 'thorough': 4}),
 ]
